@@ -777,13 +777,14 @@ func (p *PX) instrs(fr *pxFrame, b *ssa.BasicBlock, from int, st *pxState, k pxC
 				_ = cs
 			}
 			decided := tok != fok
-			if decided && c.K == TBoolConst {
+			if decided && c.K == TBoolConst && countedTest(x.Cond, b) {
 				// a counted loop whose exit test is a comparison of constants on this path (a
 				// scan over a constant table, i < 4 with i = 0, 1, 2 …) terminates by itself:
 				// each pass through its header starts a new iteration, in which the undecided
 				// branches of the body may be taken again — the cap on undecided revisits is
 				// per iteration, not per loop.  (A test merely decided by a fact about a
-				// symbol that the body does not change would never end.)
+				// symbol that the body does not change, or a φ of constants that is not a
+				// counter — `for first := true; ; first = false` — would never end.)
 				for _, lp := range p.loopsOf(fr.fn) {
 					if lp.header != b {
 						continue
@@ -1037,4 +1038,32 @@ func (st *pxState) originOf(t *Term) *Term {
 		return nil
 	}
 	return st.vals["call:"+k[1:len(k)-1]]
+}
+
+// countedTest: cond compares a counter φ of block b (φ(init, φ±k), possibly
+// already stepped: φ±k) with something else — the exit test of a counted loop.
+func countedTest(cond ssa.Value, b *ssa.BasicBlock) bool {
+	bo, ok := cond.(*ssa.BinOp)
+	if !ok {
+		return false
+	}
+	switch bo.Op {
+	case token.LSS, token.LEQ, token.GTR, token.GEQ, token.NEQ:
+	default:
+		return false
+	}
+	isCounter := func(v ssa.Value) bool {
+		if st, ok := v.(*ssa.BinOp); ok && (st.Op == token.ADD || st.Op == token.SUB) {
+			if _, isC := st.Y.(*ssa.Const); isC {
+				v = st.X
+			}
+		}
+		phi, ok := v.(*ssa.Phi)
+		if !ok || phi.Block() != b {
+			return false
+		}
+		_, isCnt := counterStep(phi)
+		return isCnt
+	}
+	return isCounter(bo.X) || isCounter(bo.Y)
 }
